@@ -11,13 +11,15 @@
 //                   for the items at positions p with p % nranks == r, e = every rank asks for all;
 //                   "f <id> item rep" per returned pair
 //   A:<id>          for_all: "a <id> item rep" per local item
-//   K               clear()
+//   K               clear() on every rank (callbacks are tagged with the number of clears returned so far:
+//                   "c <epoch> a b <seg>")
 #include "hcommon.hpp"
 #include <ygm/comm.hpp>
 #include <ygm/container/disjoint_set.hpp>
 #include <set>
 
 static int g_epoch = 0;
+static int g_seg = 0;   // number of clear() calls that have returned on this rank
 
 static std::vector<std::string> split(const std::string& s, char sep) {
   std::vector<std::string> v; std::stringstream ss(s); std::string t;
@@ -42,7 +44,7 @@ extern "C" int sim_main(int argc, char** argv) {
         if (f[1] == "*" || atoi(f[1].c_str()) == me) {
           if (op == "u") ds.async_union(a, b);
           else ds.async_union_and_execute(a, b, [](const int64_t& oa, const int64_t& ob) {
-            hc::out("c " + std::to_string(g_epoch) + " " + std::to_string(oa) + " " + std::to_string(ob));
+            hc::out("c " + std::to_string(g_epoch) + " " + std::to_string(oa) + " " + std::to_string(ob) + " " + std::to_string(g_seg));
           });
         }
       } else if (op == "B") {
@@ -78,7 +80,9 @@ extern "C" int sim_main(int argc, char** argv) {
           hc::out("a " + id + " " + std::to_string(item) + " " + std::to_string(rep));
         });
       } else if (op == "K") {
-        ds.clear(); known.clear();
+        // collective; may directly follow async_union calls (no barrier in between): clear() itself
+        // must first complete everything in flight, then empty the container
+        ds.clear(); known.clear(); ++g_seg;
       }
     }
     world.barrier();
